@@ -315,6 +315,18 @@ def laws(rep, rnd, tier, vals, ivals, impl):
         want = "(list (b 1) (b 1) (b 1) (b 1) (b 1) (i 1) (i 1) (b 1) (i 1) (b 1) (i 2) (i 1) (set (i 5)))"
         if out != ("val", want):
             rep.violation("input", "%s gives %s, interchangeable equal representatives give %s" % (prog, out, want), check="history", program=prog, want=want)
+    # representatives that were read from text: parse_json, eval of the rendering
+    for jtxt, lit in [("true", "TRUE"), ("false", "FALSE"), ("1", "1"), ("1.0", "1.0"), ("\"a\"", "'a'"), ("[true, 1]", "[TRUE, 1]"), ("[]", "[]"),
+                      ("{\"a\": [true, false]}", "<<<'a' => [TRUE, FALSE]>>>"), ("[[false]]", "[[FALSE]]"), ("{\"k\": [1.5]}", "<<<'k' => [1.5]>>>")]:
+        for how in ["parse_json('%s')" % jtxt, "eval(string(%s))" % lit, "parse_json('[%s]')[0]" % jtxt]:
+            prog = ("def a = %s; def b = %s; def mb = <<<>>>; mb[b] = 1; def ma = <<<>>>; ma[a] = 1; [a == b, b == a, a in <<b>>, b in <<a>>, a in mb, length(<<a, b>>) == 1, <<a>> == <<b>>, [a] == [b], "
+                    "a in [b], length(<<a>> - <<b>>) == 0, not (a != b), ma == mb]" % (how, lit))
+            out = impl.run_src(I, prog)
+            n += 1
+            hist += 1
+            want = "(list" + " (b 1)" * 12 + ")"
+            if out != ("val", want):
+                rep.violation("input", "%s gives %s, interchangeable equal representatives give %s" % (prog, out[:2], want), check="history", program=prog, want=want)
     rep.cov["representatives_with_history"] = hist
     # dates that differ by less than the second their text shows (reached by arithmetic with fractions of a day): whatever == says
     # about two of them, sets, maps, membership, removal and the order must say the same
